@@ -271,7 +271,11 @@ def processAll (reg : Registry) (opts : Opts) (plug : Plug) : Outcome :=
   let subs := reg.distinctSubs
   -- ToEntry of every module, then every submodule (the cache makes the order matter only through
   -- the merged-submodule bookkeeping)
-  let st : TState := (mods ++ subs).foldl (fun st m => (toEntry env fuel m [] m.stmt [] st).2) {}
+  -- in key order of the two maps (a module bound under two keys is converted once: the cache)
+  let convOrder : List Mod :=
+    let keys (km : KeyMap) := (sortBy (fun (a b : String × Nat) => a.1 < b.1) km).filterMap fun kv => reg.byId kv.2
+    keys reg.modules ++ keys reg.subModules
+  let st : TState := convOrder.foldl (fun st m => (toEntry env fuel m [] m.stmt [] st).2) {}
   let forest : Forest := { trees := st.cache }
   let errs := (forest.trees.map fun (_, e) => e.allErrors).flatten
   if !errs.isEmpty then { errors := canonErrs errs, forest := forest, reg := reg } else
